@@ -22,7 +22,11 @@ RULE = (
     "compared with the model's cycle. skip_empty: sequences that also contain all-None registers; the written text "
     "must be that of the sequence without them (Spec.C05.holdsSkipEmpty). In-domain (Unambiguous, canonical data) is "
     "decided by Spec.C05.inDomain; discards are counted. non-trivial = at least one typed register; distinct by "
-    "full case."
+    "full case. History of the file class (two cases in five): before the observed round trip the SAME file class "
+    "(and the same file object) has already been used - it wrote and read other text, either as it stands or, for a "
+    "class declaring VERSIONS, under another version (a table that lacks some of the types, holds earlier layouts of "
+    "them under the same identifier, in another order) selected and then left again with set_version(); the observed "
+    "round trip must be exactly what the model computes for the register list in effect, without any history."
 )
 ASSUMPTIONS = c04.ASSUMPTIONS + [
     "canonical data = values equal to what their own rendering reads back to (decided with the model's renderer/parser, which is itself compared with the code on every case)",
@@ -37,7 +41,7 @@ def build_file(case):
     from cfinterface.components.defaultregister import DefaultRegister
     from cfinterface.data.registerdata import RegisterData
 
-    RF, classes = fsup.mk_register_file(case["regs"], io=case.get("io"))
+    RF, classes = mk_file_class(case)
     data = RegisterData(DefaultRegister(data=""))
     late = []
     for e in case["elems"]:
@@ -58,9 +62,51 @@ def build_file(case):
     return RF, classes, f
 
 
+def mk_file_class(case):
+    """the file class of the case: fsup.mk_register_file's, or - when the case's history visits versions - the
+    same class declaring a VERSIONS table {warm: another register list, final: the case's own register list}"""
+    h = case.get("history") or {}
+    if "versions" not in h:
+        return fsup.mk_register_file(case["regs"], io=case.get("io"))
+    from cfinterface.files.registerfile import RegisterFile
+
+    regs = case["regs"]
+    classes = fsup.mk_register_classes(regs)
+    olds = iter(fsup.mk_register_classes([t["old"] for t in h["warm_types"] if "old" in t]))
+    warm = [classes[t["same"]] if "same" in t else next(olds) for t in h["warm_types"]]
+    keys = h["versions"]
+    ns = {"VERSIONS": {keys["warm"]: warm, keys["final"]: classes}, "STORAGE": fsup.text_storage("TEXT", len(regs)), "__slots__": []}
+    declared = {"final": classes, "warm": warm}.get(h.get("declared"))
+    if declared is not None:  # otherwise the class declares no REGISTERS of its own: only set_version() gives it any
+        ns["REGISTERS"] = declared
+    if case.get("io"):
+        ns["ENCODING"] = case["io"]["enc"]
+    return fsup.derived(type("RF", (RegisterFile,), ns), len(regs)), classes
+
+
+def warm_up(RF, f, case, h):
+    """earlier uses of the file class and of the file object; nothing of them is observed: the property says
+    what the round trip that FOLLOWS gives, whatever the class did before"""
+    io = case.get("io")
+    tw = fsup.write_text(f, io)
+    for n, v in enumerate(h["visits"]):
+        if v is not None:
+            RF.set_version(h["versions"][v])
+        text = tw if n % 2 == 0 else "".join(reversed(tw.splitlines(True)))
+        g = fsup.read_text(RF, text, io, *c04.text_linesize(case))
+        if n % 2 == 0 and not any("old" in t for t in h.get("warm_types", [])):
+            # written back only when every typed register of g was read by the layout that wrote it: what an
+            # earlier layout makes of the text (an infinite float, say) need not be writable, and no property says so
+            fsup.write_text(g, io)
+    if "versions" in h:
+        RF.set_version(h["select"])  # the version the observed round trip runs under: the case's register list
+
+
 def run_impl(case):
     try:
         RF, classes, f = build_file(case)
+        if case.get("history"):
+            warm_up(RF, f, case, case["history"])
         w = fsup.write_text(f, case.get("io"))
         if case.get("shape") == "skip_empty":
             return {"written": codec.enc_str(w)}
@@ -89,13 +135,26 @@ def judge(case, obs, resp):
         return {"status": "skip", "why": "outside the domain (ambiguous identifiers / non-canonical data)"}
     if not resp["model_holds"]:
         return {"status": "error", "why": f"the MODEL's cycle violates Spec.C05.holds: {show(resp.get('model'))}"}
+    hist = show_history(case)
     if "exc" in obs:
-        return {"status": "oracle", "why": f"write/read raised {obs['exc']}: {obs.get('msg')}"}
+        return {"status": "oracle", "why": f"write/read raised {obs['exc']}: {obs.get('msg')}{hist}"}
     if not resp["holds"]:
-        return {"status": "oracle", "why": f"got {show(obs)}; required {show(resp.get('model'))}"}
+        return {"status": "oracle", "why": f"got {show(obs)}; required {show(resp.get('model'))}{hist}"}
     if not resp["agree"]:
-        return {"status": "corr", "why": f"model {show(resp.get('model'))} vs implementation {show(obs)}"}
+        return {"status": "corr", "why": f"model {show(resp.get('model'))} vs implementation {show(obs)}{hist}"}
     return {"status": "ok", "why": ""}
+
+
+def show_history(case):
+    h = case.get("history")
+    if not h:
+        return ""
+    if "versions" not in h:
+        return f" [history: the same file class read {len(h['visits'])} other text(s) before this round trip]"
+    k = h["versions"]
+    warm = [f"type {t['same']}" if "same" in t else f"an earlier layout of {codec.dec_str(t['old']['ident'])!r}" for t in h["warm_types"]]
+    return (f" [history: the file class declares VERSIONS {{{k['warm']!r}: [{', '.join(warm)}], {k['final']!r}: the register list of the case}}; "
+            f"before this round trip it read text under version(s) {[k[v] for v in h['visits']]}, then set_version({h['select']!r}) selected {k['final']!r}]")
 
 
 def show(o):
@@ -115,6 +174,12 @@ def nontrivial(case):
 
 def features(case, obs):
     f = [f"shape={case.get('shape', 'roundtrip')}", f"nregs={len(case['regs'])}", f"nelems={len(case['elems'])}"]
+    h = case.get("history")
+    f.append("history=" + ("none" if not h else "versions" if "versions" in h else "same_table"))
+    if h and "versions" in h:
+        kept = {t["same"] for t in h["warm_types"] if "same" in t}
+        if any("cls" in e and e["cls"] not in kept for e in case["elems"]):
+            f.append("history_data_of_a_type_the_earlier_version_lacks")
     for e in case["elems"]:
         if "cls" in e:
             if all(v is None for v in e["data"]):
@@ -221,7 +286,46 @@ FREE_TEXT = ["# comment\n", "\n", "   \n", "free text line\n", "& 12 34\n", "#AA
              "& vazão média (m³/s)\n", "ñ\n", "* comentário não reconhecido\n"]
 
 
-def random_case(rng, with_empty=False):
+VERSION_KEYS = [("v1", "v2", ["v2", "v2", "v7"]), ("v3", "v2", ["v2", "v2b"]), ("1.0", "1.1", ["1.1", "1.1.4", "9"]), ("2024", "2023", ["2023", "2023-12"])]
+
+
+def earlier_layout(rng, rd):
+    """another layout under the same identifier (what an earlier version of a record type looks like)"""
+    fields = [dict(fd) for fd in rd["fields"]]
+    how = rng.randrange(3)
+    if how == 0 and len(fields) > 1:
+        fields.pop()
+    elif how == 1:
+        last = fields[-1]
+        fields.append(codec.fd_int(rng.randrange(1, 6), last["start"] + last["size"] + 1))
+    else:
+        for fd in fields:
+            fd["start"] += 2
+    return {**rd, "fields": fields}
+
+
+def random_history(rng, regs):
+    """what the file class did before the observed round trip (see RULE)"""
+    if rng.random() < 0.25:
+        return {"visits": [None] * rng.choice([1, 1, 2])}
+    n = len(regs)
+    types = []
+    for i in range(n):
+        r = rng.random()
+        if r < 0.45:
+            types.append({"same": i})
+        elif r < 0.65:
+            types.append({"old": earlier_layout(rng, regs[i])})
+    if len(types) == n and all("same" in t for t in types):
+        types.pop(rng.randrange(n))  # the earlier version differs from the one observed
+    if rng.random() < 0.5:
+        rng.shuffle(types)
+    warm, final, selects = rng.choice(VERSION_KEYS)
+    return {"versions": {"warm": warm, "final": final}, "warm_types": types, "declared": rng.choice(["final", "final", "warm", "none"]),
+            "visits": rng.choice([["warm"], ["warm"], ["warm"], ["final", "warm"], ["warm", "warm"]]), "select": rng.choice(selects)}
+
+
+def random_case(rng, with_empty=False, history=False):
     regs = make_regs(rng)
     elems = []
     for _ in range(fsup.nlines(rng, 13)):
@@ -255,6 +359,8 @@ def random_case(rng, with_empty=False):
     io = fsup.io_of(rng, [t for t in texts if isinstance(t, str)])
     if io:
         case["io"] = io  # written to / read back from a path on disk, in the class's declared encoding
+    if history and rng.random() < 0.4:
+        case["history"] = random_history(rng, regs)
     return case
 
 
@@ -283,11 +389,16 @@ def cases_of(chunk):
     else:
         rng = random.Random(chunk["seed"])
         for _ in range(chunk["n"]):
-            yield random_case(rng, chunk["empty"])
+            yield random_case(rng, chunk["empty"], history=True)
 
 
 def shrinks(case):
     es = case["elems"]
+    if case.get("history"):
+        yield {k: v for k, v in case.items() if k != "history"}
+        h = case["history"]
+        if len(h["visits"]) > 1:
+            yield {**case, "history": {**h, "visits": h["visits"][-1:]}}
     for i in range(len(es)):
         yield {**case, "elems": es[:i] + es[i + 1 :]}
     for i in range(len(es)):
